@@ -42,6 +42,12 @@ class Violation:
         self.found_input = found_input
 
 
+# quick-tier case budgets were first tuned to 2-6 s per check; measured on 8 seeds they leave room, so the cheap checks
+# explore more per run (still well under a minute each)
+QUICK_SCALE = {"C01": 4, "C02": 4, "C03": 4, "C05": 4, "C07": 4, "C08": 5, "C09": 5, "C10": 6, "C11": 3, "C12": 4, "C13": 3,
+               "C14": 5, "C15": 4, "C16": 4, "C17": 3, "C18": 3, "C19": 3, "C20": 3}
+
+
 class Ctx:
     def __init__(self, prop, tier, seed):
         self.prop = prop
@@ -72,7 +78,7 @@ class Ctx:
 
     def n(self, quick, thorough):
         """case budget for this tier"""
-        base = quick if self.tier == "quick" else thorough
+        base = quick * QUICK_SCALE.get(self.prop, 1) if self.tier == "quick" else thorough
         return max(1, int(base * self.budget_factor))
 
     def elapsed(self):
